@@ -275,7 +275,7 @@ func runTop(mock reflect.Value, op Op) Out {
 		}
 		done <- o
 	}()
-	wait := 2 * time.Second
+	wait := 5 * time.Second // generous: the machine may be heavily loaded; a healthy step takes microseconds
 	if ms, err := strconv.Atoi(os.Getenv("DRV_WATCHDOG_MS")); err == nil && ms > 0 {
 		wait = time.Duration(ms) * time.Millisecond // used while shrinking a history that already deadlocked
 	}
